@@ -1,6 +1,115 @@
-(* Props/C10.v — property theorems only; proofs live in Proofs/. *)
+(* Props/C10.v — property C10: honest peers negotiate by the policy table and
+   agree on the result.  Only the decision table (written from the property
+   text, independently of Model/Negotiate.v) and the theorems; proofs are in
+   Proofs/C10.v. *)
 From Coq Require Import List NArith ZArith Bool.
-From Cedar Require Import Model.Negotiate.
-Theorem C10_bit_roundtrip_ctb : of_bit (bit mCTB) = Some mCTB.
-Proof. reflexivity. Qed.
-Print Assumptions C10_bit_roundtrip_ctb.
+From Cedar Require Import Model.Negotiate Proofs.C10.
+Import ListNotations.
+
+(* ---- the decision table, from the property text ---------------------------- *)
+
+Definition four_levels : list lvl := [Rq; Pf; Op; Nv].        (* REQUIRED PREFERRED OPTIONAL NEVER *)
+Definition Req (a b : lvl) : Prop := a = Rq \/ b = Rq.       (* either side requires *)
+Definition Nev (a b : lvl) : Prop := a = Nv \/ b = Nv.       (* either side forbids *)
+Definition Pref (a b : lvl) : Prop := a = Pf \/ b = Pf.      (* either side prefers *)
+
+(* a mutually usable method: listed by both, a real method (not NONE), and its
+   sub-protocol works between these two peers *)
+Definition MutualMethod (aok : meth -> bool) (cm sm : list meth) : Prop :=
+  exists m, In m cm /\ In m sm /\ m <> mNONE /\ aok m = true.
+(* a mutually supported cipher: AES-256-GCM, the cipher cedar implements *)
+Definition MutualCipher (cc sc : list ciph) : Prop := In cAES cc /\ In cAES sc.
+
+(* "fails exactly when one side requires what the other forbids or a required
+   feature has no mutually supported method" *)
+Definition MustFail (aok : meth -> bool) (C S : policy) : Prop :=
+  (Req (p_auth C) (p_auth S) /\ Nev (p_auth C) (p_auth S)) \/
+  (Req (p_enc C) (p_enc S) /\ Nev (p_enc C) (p_enc S)) \/
+  (Req (p_auth C) (p_auth S) /\ ~ MutualMethod aok (p_meths C) (p_meths S)) \/
+  (Req (p_enc C) (p_enc S) /\ ~ MutualCipher (p_ciphs C) (p_ciphs S)).
+
+(* "authentication runs whenever either side requires it, or either prefers it
+   while neither forbids it and a mutually usable method exists" *)
+Definition AuthRuns (aok : meth -> bool) (C S : policy) : Prop :=
+  Req (p_auth C) (p_auth S) \/
+  (Pref (p_auth C) (p_auth S) /\ ~ Nev (p_auth C) (p_auth S) /\ MutualMethod aok (p_meths C) (p_meths S)).
+
+(* what a successful handshake must look like on both ends *)
+Definition Agreed (aok : meth -> bool) (C S : policy) (r : hok) : Prop :=
+  (k_sauth r = true <-> AuthRuns aok C S) /\          (* authentication ran iff the table says so *)
+  k_cauth r = k_sauth r /\                             (* both report the same authentication outcome *)
+  (k_sauth r = true ->                                 (* ... and the method that really ran, a mutual one *)
+     exists m, k_ran r = Some m /\ k_cmeth r = m /\ k_smeth r = m /\
+               In m (p_meths C) /\ In m (p_meths S) /\ aok m = true) /\
+  (k_sauth r = false -> k_ran r = None) /\
+  (Req (p_enc C) (p_enc S) -> k_creal r = true) /\    (* encryption is on whenever either side requires it *)
+  k_cenc r = k_creal r /\ k_senc r = k_sreal r /\      (* reported encryption = real state, on both ends *)
+  k_creal r = k_sreal r /\
+  k_csid r = k_ssid r /\                               (* same session identifier *)
+  k_ckey r = k_skey r /\                               (* same key: messages flow both ways at once *)
+  (k_creal r = true -> k_ckey r <> None).
+
+(* ---- the theorem --------------------------------------------------------------
+
+   For all 4^4 combinations of the four level names (finite: the bound is the
+   membership in [four_levels]; proved by complete enumeration of the control
+   flow, Proofs.C10.row_ok_all) and ALL method lists, cipher lists (induction),
+   public keys and session ids:  the composed handshake of the two honest
+   endpoints ends in the server's explicit denial exactly when the table says
+   it must fail, and otherwise succeeds with both ends agreeing.
+
+   Hypotheses:
+   - Integrity is not REQUIRED (the property's matrix is authentication x
+     encryption; REQUIRED integrity is enforced only at the end of the handshake,
+     see notes/C10.md);
+   - the server does not list IDTOKENS (it shares its bitmask bit with SCITOKENS,
+     so the bitmask exchange cannot name it);
+   - between these two peers, a method both list works iff this build implements
+     it (honest, correctly credentialed endpoints; PASSWORD is a stub). *)
+Theorem C10_table : forall (aok : meth -> bool) (C S : policy) (sid : N),
+  In (p_auth C) four_levels -> In (p_auth S) four_levels ->
+  In (p_enc C) four_levels -> In (p_enc S) four_levels ->
+  p_integ C <> Rq -> p_integ S <> Rq ->
+  ~ In mIDT (p_meths S) ->
+  (forall m, In m (p_meths C) -> In m (p_meths S) -> m <> mNONE -> aok m = implemented m) ->
+  (MustFail aok C S -> honest aok C S sid = HDenied) /\
+  (~ MustFail aok C S -> exists r, honest aok C S sid = HOk r /\ Agreed aok C S r).
+Proof. exact table_holds. Qed.
+Print Assumptions C10_table.
+
+(* the retry loop of the bitmask exchange never needs more rounds than the
+   client has methods, and ends with a method both sides list *)
+Theorem C10_retry_loop : forall aok (sm cms : list meth) (g : meth),
+  ~ In mIDT sm -> (forall m, In m cms -> In m sm) ->
+  (forall m, In m cms -> m <> mNONE -> aok m = implemented m) ->
+  In g cms -> implemented g = true -> g <> mNONE ->
+  exists rounds ms, auth_loop (S (length cms)) aok sm cms (mask cms) = (rounds, LOk ms)
+                    /\ In ms cms /\ aok ms = true.
+Proof.
+  intros aok sm cms g H1 H2 H3 H4 H5 H6.
+  destruct cms as [|c0 r0]; [contradiction|].
+  exact (loop_ok aok sm (c0 :: r0) H1 H2 H3 g H4 H5 H6 (length r0) (mask (c0 :: r0))
+           (inv_mask (c0 :: r0) g H4 (implemented_bit g H5 H6))).
+Qed.
+Print Assumptions C10_retry_loop.
+
+(* ---- non-vacuity: realistic configurations satisfying the hypotheses -------- *)
+
+Definition ex_aok := implemented.
+(* client OPTIONAL/PREFERRED against server REQUIRED/OPTIONAL, server prefers the
+   unimplemented PASSWORD: one failed round, then CLAIMTOBE; both report
+   authentication (the cell the client used to misreport) and encryption. *)
+Example C10_ex_retry :
+  honest ex_aok (mkP Op Pf Op [mCTB; mPW] [cAES] 11) (mkP Rq Op Op [mPW; mCTB] [cAES] 22) 5 =
+  HOk (mkOk [(514, 512); (2, 2)]%Z (Some mCTB) true true true true mCTB mCTB true true
+         (Some (KDH 11 22)) (Some (KDH 11 22)) 5 5).
+Proof. vm_compute. reflexivity. Qed.
+(* REQUIRED against NEVER is denied explicitly *)
+Example C10_ex_denied :
+  honest ex_aok (mkP Rq Op Op [mCTB] [cAES] 11) (mkP Nv Op Op [mCTB] [cAES] 22) 5 = HDenied.
+Proof. vm_compute. reflexivity. Qed.
+(* only an unimplemented method in common, both PREFERRED: proceeds unauthenticated *)
+Example C10_ex_fallback :
+  exists r, honest ex_aok (mkP Pf Nv Op [mPW] [] 11) (mkP Pf Op Op [mPW] [cAES] 22) 5 = HOk r
+            /\ k_cauth r = false /\ k_sauth r = false /\ k_creal r = false.
+Proof. eexists. vm_compute. repeat split. Qed.
